@@ -221,9 +221,23 @@ static char *quote_string(char *str) {
   return buf;
 }
 
+// Tokens made by the preprocessor are tokenized from a buffer of their
+// own, in which they are on line 1. Give them the position of the token
+// they stand for, so that diagnostics and debug line records are right.
+static Token *tokenize_at(Token *tmpl, char *buf) {
+  File *file = new_file(tmpl->file->name, tmpl->file->file_no, buf);
+  file->display_name = tmpl->file->display_name;
+  file->line_delta = tmpl->file->line_delta;
+
+  Token *tok = tokenize(file);
+  for (Token *t = tok; t; t = t->next)
+    t->line_no = tmpl->line_no;
+  return tok;
+}
+
 static Token *new_str_token(char *str, Token *tmpl) {
   char *buf = quote_string(str);
-  return tokenize(new_file(tmpl->file->name, tmpl->file->file_no, buf));
+  return tokenize_at(tmpl, buf);
 }
 
 // Copy all tokens until the next newline, terminate them with
@@ -243,7 +257,7 @@ static Token *copy_line(Token **rest, Token *tok) {
 
 static Token *new_num_token(int val, Token *tmpl) {
   char *buf = format("%d\n", val);
-  return tokenize(new_file(tmpl->file->name, tmpl->file->file_no, buf));
+  return tokenize_at(tmpl, buf);
 }
 
 static Token *read_const_expr(Token **rest, Token *tok) {
@@ -516,7 +530,7 @@ static Token *paste(Token *lhs, Token *rhs) {
   char *buf = format("%.*s%.*s", lhs->len, lhs->loc, rhs->len, rhs->loc);
 
   // Tokenize the resulting string.
-  Token *tok = tokenize(new_file(lhs->file->name, lhs->file->file_no, buf));
+  Token *tok = tokenize_at(lhs, buf);
   if (tok->kind == TK_EOF || tok->next->kind != TK_EOF)
     error_tok(lhs, "pasting forms '%s', an invalid token", buf);
   return tok;
